@@ -12,6 +12,7 @@ import (
 	"fmt"
 	"io"
 	"math"
+	"math/big"
 	"os"
 	"runtime"
 	"strconv"
@@ -89,6 +90,29 @@ func cfCoord(v, a int) float64 {
 	return table[v-1][a-1]
 }
 
+// VERIF_COORDS=mid: the coordinates of a valid single-precision text file are written as long decimals just
+// above / just below the midpoint between two neighbouring float32 values; they must be read as the float32 on the
+// right side of that midpoint (a reader that rounds to double first and to single afterwards lands on the even
+// neighbour instead)
+var cfCoordMode = os.Getenv("VERIF_COORDS")
+
+// cfMid: text and correctly rounded single-precision value of table coordinate (v, a) in mode "mid"
+func cfMid(v, a int) (string, float64) {
+	b := float32(cfCoord(v, a))
+	if b == 0 {
+		return "0", 0
+	}
+	up := math.Nextafter32(b, float32(math.Inf(1)))
+	mid := new(big.Float).SetPrec(200).Add(new(big.Float).SetFloat64(float64(b)), new(big.Float).SetFloat64(float64(up)))
+	mid.Quo(mid, big.NewFloat(2))
+	digits := strings.TrimRight(mid.Text('f', 80), "0")
+	if (v+a)%2 == 0 {
+		return digits + "1", float64(up) // just above the midpoint
+	}
+	last := digits[len(digits)-1]
+	return digits[:len(digits)-1] + string(last-1) + "9", float64(b) // just below it
+}
+
 func cfValueText(v string) string {
 	// "$i:a" anywhere in the word (CSV packs four of them with commas)
 	for {
@@ -102,6 +126,11 @@ func cfValueText(v string) string {
 		}
 		var vi, ai int
 		fmt.Sscanf(v[i+1:j], "%d:%d", &vi, &ai)
+		if cfCoordMode == "mid" {
+			txt, _ := cfMid(vi, ai)
+			v = v[:i] + txt + v[j:]
+			continue
+		}
 		v = v[:i] + strconv.FormatFloat(cfCoord(vi, ai), 'g', -1, 64) + v[j:]
 	}
 }
@@ -219,6 +248,11 @@ func cfMeshMatches(c *cfCase, tris []*model3d.Triangle, single bool) bool {
 	}
 	conv := func(v int) model3d.Coord3D {
 		x, y, z := cfCoord(v+1, 1), cfCoord(v+1, 2), cfCoord(v+1, 3)
+		if cfCoordMode == "mid" {
+			_, x = cfMid(v+1, 1)
+			_, y = cfMid(v+1, 2)
+			_, z = cfMid(v+1, 3)
+		}
 		if single {
 			return model3d.XYZ(float64(float32(x)), float64(float32(y)), float64(float32(z)))
 		}
